@@ -150,6 +150,7 @@ func RunClientUpdater(statusport int, abort <-chan struct{}) {
 			// save only once.
 			updateString := string(message)
 			if lastMessageStrings[update.tag] != updateString {
+				verifAcc("lastm", nil, true)
 				lastMessages[update.tag] = update.state
 				lastMessageStrings[update.tag] = updateString
 
@@ -191,6 +192,7 @@ func saveState(lastMessages map[string]interface{}) {
 	verifSync("lock", "cfg", &configLock)
 	defer verifSync("unlock", "cfg", &configLock)
 	verifAcc("vip", &configLock, true)
+	verifAcc("lastm", nil, true)
 
 	lastMessages["___1"] = "DASTARD configuration file. Written and read by DASTARD."
 	lastMessages["___2"] = "Human intervention by experts is permitted but not expected."
